@@ -103,7 +103,8 @@ fn apply_law_here(law: &Law, c: &Cmd) -> Option<Cmd> {
         Law::MapEventId => Cmd::MapEvent(IDENTITY, b(c)),
         Law::IntoFrom => Cmd::IntoFrom(b(c)),
         Law::AndCommute => match c {
-            Cmd::And(x, y) if !matches!(**y, Cmd::Abortable(..)) => Cmd::And(y.clone(), x.clone()),
+            // a handle taken on the left operand covers the whole `and`: not symmetric then
+            Cmd::And(x, y) if !leads_with_handle(x) && !leads_with_handle(y) => Cmd::And(y.clone(), x.clone()),
             _ => return None,
         },
         Law::AllPermute(seed) => match c {
@@ -123,6 +124,14 @@ fn apply_law_here(law: &Law, c: &Cmd) -> Option<Cmd> {
         },
         Law::Layers(seed, k) => wrap_layers(c.clone(), *seed, *k),
     })
+}
+
+fn leads_with_handle(c: &Cmd) -> bool {
+    match c {
+        Cmd::Abortable(..) => true,
+        Cmd::And(l, _) => leads_with_handle(l),
+        _ => false,
+    }
 }
 
 #[derive(Clone, Debug, Serialize, Deserialize)]
@@ -437,6 +446,13 @@ impl Check for CmdCheck {
             _ => false,
         });
         let law = s.law.as_ref().filter(|l| !(interfering && matches!(l, Law::AndCommute | Law::AllPermute(_))));
+        if base.reap_slack && (s.law.is_some() || !s.diff_hosts.is_empty()) {
+            // when an aborted command which nothing wakes is discarded is left open (a resolve of
+            // an already discarded request wakes the tasks around it in one nesting and not in
+            // another): two executions need not agree step by step, each is judged by the reference
+            cov.bump("law_or_host_comparison_skipped:discard_time_open");
+            return Ok(base.info);
+        }
         // model-free oracle 1: algebraic laws / wrapping layers, real vs real under the same script
         if let Some(law) = law {
             let mut applies = false;
